@@ -6,10 +6,11 @@
  * usage: chanprvharness <file>      (CHANPRV_VERBOSE=1 keeps the library's stderr)
  *
  * input, one sequence per line:
- *     <tracks> <stprops> <sgprops> | <call> <call> ...
+ *     <tracks> <stprops> <sgprops> <nrows> | <call> <call> ...
  *   tracks   letters a (TRACK_TH_ANY) r (TRACK_TH_RUN) c (TRACK_TH_ACT) u (cpu mux), or -
  *            all over the stack channel st; select ts (cpu: select cs, inputs st, sg)
  *   props    three digits: CHAN_DIRTY_WRITE CHAN_ALLOW_DUP CHAN_IGNORE_DUP
+ *   nrows    rows of the trace (prv_open_file)
  *   calls    R:<target>:<row>:<type>:<flags>   prv_register (target: st sg any run act cpu)
  *            s:<chan>:<v>  chan_set    u:<chan>:<v>  chan_push    o:<chan>:<v>  chan_pop
  *            f:<chan>      chan_flush  P  bay_propagate   A:<t>  prv_advance   C  prv_close
@@ -19,8 +20,10 @@
  *   answer   R<rc> / A<rc> / C<rc>; for channel calls <rc>[<chan>=<shown>,<last_value>,<is_dirty>,<depth>];
  *            for P the same with every channel (st sg ts cs run act cpu as wired)
  *   the file is read back after prv_close.  "CRASH sig=<n> call=<k>" if the code
- *   died in call k (die()/abort, a signal, or 10 s without progress); "BAD ..." if
- *   the harness itself could not set the sequence up.
+ *   died in call k (die()/abort, a signal, or 10 s without progress);
+ *   "SETUP <call>" if the code refused one of the wiring calls (bay_register,
+ *   track_init, track_connect_thread, track_set_select, track_set_input,
+ *   prv_open_file); "BAD ..." if the harness could not read the sequence.
  */
 #include <signal.h>
 #include <stdio.h>
@@ -230,14 +233,15 @@ static void
 run_line(char *line, FILE *o)
 {
 	char tracks[16], stp[8], sgp[8];
+	long nrows = 0;
 	int used = 0;
-	if (sscanf(line, "%15s %7s %7s |%n", tracks, stp, sgp, &used) != 3 || used == 0) {
+	if (sscanf(line, "%15s %7s %7s %ld |%n", tracks, stp, sgp, &nrows, &used) != 4 || used == 0) {
 		fprintf(o, "BAD header");
 		return;
 	}
 	const char *e = setup(tracks, stp, sgp);
 	if (e != NULL) {
-		fprintf(o, "BAD setup %s", e);
+		fprintf(o, "%s %s", strcmp(e, "props") == 0 ? "BAD" : "SETUP", e);
 		return;
 	}
 	int fd = memfd_create("prv", 0);
@@ -246,8 +250,12 @@ run_line(char *line, FILE *o)
 		return;
 	}
 	FILE *f = fdopen(dup(fd), "w");
-	if (f == NULL || prv_open_file(&prv, 2, f) != 0) {
-		fprintf(o, "BAD prv_open_file");
+	if (f == NULL) {
+		fprintf(o, "BAD fdopen");
+		return;
+	}
+	if (prv_open_file(&prv, nrows, f) != 0) {
+		fprintf(o, "SETUP prv_open_file");
 		return;
 	}
 	int closed = 0;
